@@ -1092,3 +1092,30 @@ def r5_safe_variants(ctx) -> None:
     if not any(call_name(c) == "yaml.safe_load" for c in walk_no_nested(fy.node) if isinstance(c, ast.Call)):
         r.violation("C16.R5", fy.qual, "yaml.safe_load(processing_pipeline)", "pipeline YAML is not parsed with yaml.safe_load", fy.loc)
     r.floor("C16.R5", 3)
+    # the sandbox must keep template text from calling the library: the context holds live pipeline/rule/backend objects
+    r.rule("C16.R6", "template text cannot reach the loader API: every Jinja environment that renders pipeline templates is the restricted sandbox whose is_safe_callable refuses functions, methods and classes defined in the sigma package (from_dict/from_yaml with allow_template_vars / allow_external_sources would let a document grant itself the capabilities)")
+    envs = 0
+    sb = prog.classes.get("sigma.processing.templates.SigmaSandboxedEnvironment")
+    for q, fi in sorted(prog.funcs.items()):
+        if not fi.module.name.startswith(("sigma.processing", "sigma.conversion", "sigma.pipelines")):
+            continue
+        for c in (n for n in walk_no_nested(fi.node) if isinstance(n, ast.Call)):
+            nm = call_name(c).split(".")[-1]
+            if nm.endswith("SandboxedEnvironment") or nm in ("Environment", "NativeEnvironment"):
+                envs += 1
+                loc = f"{fi.module.relpath}:{c.lineno}"
+                if nm == "SigmaSandboxedEnvironment" and sb is not None:
+                    r.ok("C16.R6", q, f"{short(c, 70)}: restricted sandbox", loc)
+                else:
+                    r.violation("C16.R6", q, short(c, 90), "templates are rendered in an environment that only blocks underscore attributes: the live pipeline object in the template context exposes from_dict/from_yaml, so `{% set p = pipeline.from_dict({... 'vars': '/x/evil.py'}, allow_template_vars=True) %}` in a pipeline document executes a vars file (or a command placeholder a shell command) with default arguments", loc)
+    if sb is not None:
+        isc = sb.methods.get("is_safe_callable")
+        srct = unparse(isc.node) if isc else ""
+        denies = isc is not None and "__module__" in srct and "startswith('sigma.')" in srct.replace('"', "'") and any(isinstance(x, ast.Return) and isinstance(x.value, ast.Constant) and x.value.value is False for x in ast.walk(isc.node))
+        delegates = "super().is_safe_callable(obj)" in srct
+        if denies and delegates:
+            r.ok("C16.R6", sb.qual, "is_safe_callable: objects defined in sigma.* are not callable, everything else as in the stock sandbox", f"{sb.module.relpath}:{sb.node.lineno}")
+        else:
+            r.violation("C16.R6", sb.qual, "def is_safe_callable", "the restricted sandbox does not refuse callables of the sigma package (or no longer applies the stock sandbox rules to the rest)", f"{sb.module.relpath}:{sb.node.lineno}")
+    if envs < 2:
+        raise AnalysisError(f"only {envs} Jinja environment constructions found (2 confirmed in TemplateBase.__post_init__)")
